@@ -7,6 +7,7 @@ import (
 	"strconv"
 	"testing"
 	"testing/synctest"
+	"time"
 
 	"github.com/fogfish/golem/pipe/v2"
 	"github.com/fogfish/golem/pipe/v2/fork"
@@ -270,4 +271,135 @@ func TestReplayAny(t *testing.T) {
 			t.Fatalf("%s", msg)
 		}
 	}
+}
+
+// ---- the thin delegations of package fork (Emit, Unfold, TakeWhile): fork.Pure / Lift / Try are converted into the
+// pipe morphism of the same failure mode (fork/function.go: "causes the failure of channel, aborts" / "causes the failure
+// of step, continues"), so each must behave exactly like the pipe stage given the pipe morphism of that mode.
+
+type delegOut struct {
+	vals   []int
+	errs   []string
+	closed bool
+}
+
+func collectDeleg(out <-chan int, exx <-chan error, n int, cancel context.CancelFunc) delegOut {
+	var r delegOut
+	errsDone := make(chan struct{})
+	var errs []string
+	stop := make(chan struct{})
+	go func() {
+		defer close(errsDone)
+		for {
+			select {
+			case e, ok := <-exx:
+				if !ok {
+					return
+				}
+				errs = append(errs, e.Error())
+			case <-stop:
+				return
+			}
+		}
+	}()
+	for len(r.vals) < n {
+		v, ok := <-out
+		if !ok {
+			r.closed = true
+			break
+		}
+		r.vals = append(r.vals, v)
+	}
+	synctest.Wait() // every error that precedes the next value has been received by now
+	close(stop)
+	<-errsDone
+	r.errs = append([]string{}, errs...)
+	cancel()
+	for range out {
+	}
+	if exx != nil {
+		for range exx {
+		}
+	}
+	return r
+}
+
+func runDeleg(sc *Scenario) string {
+	fails := map[int]bool{}
+	for _, x := range sc.Fail {
+		fails[x] = true
+	}
+	step := func(x int) (int, error) {
+		if sc.Mode != "pure" && fails[x] {
+			return -x, fmt.Errorf("E%d", x)
+		}
+		return sc.A*x + sc.B, nil
+	}
+	pred := func(x int) (bool, error) {
+		if sc.Mode != "pure" && fails[x] {
+			return x%2 == 0, fmt.Errorf("E%d", x)
+		}
+		return x < sc.N, nil
+	}
+	var fi fork.F[int, int]
+	var pi pipe.F[int, int]
+	var fb fork.F[int, bool]
+	var pb pipe.F[int, bool]
+	switch sc.Mode {
+	case "pure":
+		fi, pi = fork.Pure(func(x int) int { v, _ := step(x); return v }), pipe.Pure(func(x int) int { v, _ := step(x); return v })
+		fb, pb = fork.Pure(func(x int) bool { v, _ := pred(x); return v }), pipe.Pure(func(x int) bool { v, _ := pred(x); return v })
+	case "lift":
+		fi, pi, fb, pb = fork.Lift(step), pipe.Lift(step), fork.Lift(pred), pipe.Lift(pred)
+	default:
+		fi, pi, fb, pb = fork.Try(step), pipe.Try(step), fork.Try(pred), pipe.Try(pred)
+	}
+	var a, b delegOut
+	switch sc.Stage {
+	case "deleg/takeWhile":
+		ctx, cancel := context.WithCancel(context.Background())
+		defer cancel()
+		a.vals = fork.ToSeq(fork.TakeWhile(ctx, fork.Seq(sc.In[0]...), fb))
+		b.vals = pipe.ToSeq(pipe.TakeWhile(ctx, pipe.Seq(sc.In[0]...), pb))
+	case "deleg/unfold":
+		ctx1, c1 := context.WithCancel(context.Background())
+		o, e := fork.Unfold(ctx1, sc.Caps0(), sc.Seed, fi)
+		a = collectDeleg(o, e, sc.Ops, c1)
+		ctx2, c2 := context.WithCancel(context.Background())
+		o, e = pipe.Unfold(ctx2, sc.Caps0(), sc.Seed, pi)
+		b = collectDeleg(o, e, sc.Ops, c2)
+	default:
+		ctx1, c1 := context.WithCancel(context.Background())
+		o, e := fork.Emit(ctx1, sc.Caps0(), time.Millisecond, fi)
+		a = collectDeleg(o, e, sc.Ops, c1)
+		ctx2, c2 := context.WithCancel(context.Background())
+		o, e = pipe.Emit(ctx2, sc.Caps0(), time.Millisecond, pi)
+		b = collectDeleg(o, e, sc.Ops, c2)
+	}
+	if fmt.Sprint(a) != fmt.Sprint(b) {
+		return fmt.Sprintf("fork.%s with a fork.%s morphism gives values %v errors %v closed=%v; pipe.%s with the pipe.%s morphism of the same function gives values %v errors %v closed=%v",
+			sc.Stage[6:], sc.Mode, a.vals, a.errs, a.closed, sc.Stage[6:], sc.Mode, b.vals, b.errs, b.closed)
+	}
+	return ""
+}
+
+func TestC09Deleg(t *testing.T) {
+	rapid.Check(t, func(rt *rapid.T) {
+		sc := &Scenario{Prop: "C09", Stage: rapid.SampledFrom([]string{"deleg/takeWhile", "deleg/unfold", "deleg/emit"}).Draw(rt, "stage"),
+			Mode: rapid.SampledFrom([]string{"pure", "lift", "try"}).Draw(rt, "mode"), Caps: []int{rapid.IntRange(0, 3).Draw(rt, "cap")},
+			A: rapid.IntRange(1, 3).Draw(rt, "a"), B: rapid.IntRange(0, 5).Draw(rt, "b"), Seed: rapid.IntRange(0, 6).Draw(rt, "seed"),
+			N: rapid.IntRange(0, 20).Draw(rt, "threshold"), Ops: rapid.IntRange(1, 8).Draw(rt, "take"),
+			In:   [][]int{rapid.SliceOfN(rapid.IntRange(0, 20), 0, 12).Draw(rt, "in")},
+			Fail: rapid.SliceOfNDistinct(rapid.IntRange(0, 30), 0, 8, rapid.ID[int]).Draw(rt, "fail")}
+		msg := ""
+		b := bubble.Run(t, func() { msg = runDeleg(sc) })
+		if msg == "" {
+			msg = b
+		}
+		vk.Record(sc, sc.Mode != "pure" && len(sc.Fail) > 0, "stage="+sc.Stage, "mode="+sc.Mode)
+		if msg != "" {
+			vk.Fail("C09", "TestC09Deleg", "", sc, msg)
+			rt.Fatalf("%s", msg)
+		}
+	})
 }
